@@ -30,8 +30,14 @@ def verify_function(qualname, timeout_ms=10000, want_smt2=False):
             from contracts import sd_inv
             from .engine import Obl
             f = sd_inv.schema_lemmas()[qualname[len("schema:"):]]
+            axs = []
+            if isinstance(f, tuple):
+                f, axs = f
             o = Obl("lemma." + qualname[len("schema:"):], [], f, 0, "lemma")
-            out["obligations"].append(solve.check(o, axioms=[], timeout_ms=timeout_ms))
+            out["obligations"].append(solve.check(o, axioms=list(axs), timeout_ms=timeout_ms))
+            if z3.is_implies(f):     # anti-vacuity: the hypothesis of the lemma must not be refutable
+                cv = Obl("lemma." + qualname[len("schema:"):] + ".cover.hypothesis", [f.arg(0)], z3.BoolVal(True), 0, "cover", expect_sat=True)
+                out["obligations"].append(solve.check(cv, axioms=list(axs), timeout_ms=timeout_ms))
             out["source"] = {"function": qualname, "file": "contracts/sd_inv.py (schema lemma proved by SMT)"}
             out["seconds"] = round(time.time() - t0, 3)
             return out
